@@ -16,6 +16,7 @@ from ._http import connect, proxy_info
 from ._logging import debug, error, trace, isEnabledForError, isEnabledForTrace
 from ._socket import getdefaulttimeout, recv, send, sock_opt
 from ._ssl_compat import ssl
+from ._url import parse_url
 from ._utils import NoLock
 from ._dispatcher import DispatcherBase, WrappedDispatcher
 
@@ -271,6 +272,10 @@ class WebSocket:
                     url = self.handshake_response.headers.get("location")
                     if not url:
                         raise WebSocketException("Redirect response without Location header")
+                    try:
+                        parse_url(url)
+                    except ValueError as e:
+                        raise WebSocketException(f"Invalid redirect location: {e}")
                     self.sock.close()
                     self.sock, addrs = connect(
                         url,
